@@ -167,7 +167,7 @@ class World:
                 seed = op[1]
                 lk.training.estimate_u_using_random_sampling(max_pairs=1e4, seed=seed if seed else None)
                 self.params = self.param_id()
-                term = f"(EstimateU {coq_nat(seed)} {coq_nat(self.params)})"
+                term = f"(EstimateU {coq_nat(1 if seed else 0)} {coq_nat(self.params)})"   # full sample: the SQL differs only by seeded / unseeded
             elif kind == "em":
                 rule = [block_on("first_name"), block_on("surname")][op[1]]
                 lk.training.estimate_parameters_using_expectation_maximisation(rule)
